@@ -29,6 +29,7 @@ def PropSet(obj, name, v): return nd("propset", s=name, kids=[obj, v])
 def PropOp(obj, name, op, v): return nd("propop", s=name, s2=op, kids=[obj, v])
 def Index(a, i): return nd("index", kids=[a, i])
 def IndexSet(a, i, v): return nd("indexset", kids=[a, i, v])
+def IndexOp(a, i, op, v): return nd("indexop", s2=op, kids=[a, i, v])
 def List(items): return nd("list", kids=items)
 def Tuple(items): return nd("tuple", kids=items)
 def MapLit(pairs): return nd("map", kids=[x for kv in pairs for x in kv])
@@ -200,6 +201,7 @@ class Printer:
         if k == "propop": return f"{self.callee(n['kids'][0])}.{n['s']} {n['s2']} {self.expr(n['kids'][1])}"
         if k == "index": return f"{self.callee(n['kids'][0])}[{self.expr(n['kids'][1])}]"
         if k == "indexset": return f"{self.callee(n['kids'][0])}[{self.expr(n['kids'][1])}] = {self.expr(n['kids'][2])}"
+        if k == "indexop": return f"{self.callee(n['kids'][0])}[{self.expr(n['kids'][1])}] {n['s2']} {self.expr(n['kids'][2])}"
         if k == "list": return "[" + self.args(n["kids"]) + "]"
         if k == "tuple": return "(" + self.args(n["kids"]) + ("," if len(n["kids"]) == 1 else "") + ")"
         if k == "map":
